@@ -915,6 +915,7 @@ func runC10(o *out, thorough bool, r *rng, _ []string) map[string]interface{} {
 	cnt := runClientExhaustive(o, depth)
 	runClientRandom(o, r, n, 200, true)
 	retransmitRaceScenarios(o, r, 40)
+	agentRefusesRetransmissionScenarios(o, r, 20)
 	return map[string]interface{}{"exhaustive_part": fmt.Sprintf("every history of <= %d operations over {Start(id1), Start(id2), response(id1), response(id2), garbage, tick past the deadline, fail next write of instance 0 / 1, Close} x 2 configurations: %d histories", depth, cnt)}
 }
 
@@ -954,6 +955,7 @@ func runC12(o *out, thorough bool, r *rng, _ []string) map[string]interface{} {
 		n = 1500
 	}
 	retransmitRaceScenarios(o, r, 20)
+	agentRefusesRetransmissionScenarios(o, r, 20)
 	for i := 0; i < n; i++ {
 		// many transactions in flight, responses in random order with duplicates, unknown ids, garbage
 		k := r.pick([]int{1, 2, 5, 20, 60})
@@ -1382,5 +1384,91 @@ func reentrantHandlerScenarios(o *out, r *rng, n int) {
 			o.failFor("C15", "close-did-not-return", line)
 		}
 		o.count("handler-calls-back-into-client")
+	}
+}
+
+// refusingAgent: a ClientAgent (stock Agent inside) that refuses the n-th Start of a chosen transaction —
+// what a custom agent may legitimately do; the client must then complete and forget the transaction.
+type refusingAgent struct {
+	*stun.Agent
+	mu     sync.Mutex
+	starts map[[12]byte]int
+	refuse map[[12]byte]int // id -> which Start (1-based) is refused
+}
+
+var errAgentRefuses = errors.New("scripted agent refusal")
+
+func (a *refusingAgent) Start(id [stun.TransactionIDSize]byte, deadline time.Time) error {
+	a.mu.Lock()
+	a.starts[id]++
+	n := a.starts[id]
+	r := a.refuse[id]
+	a.mu.Unlock()
+	if r != 0 && n == r {
+		return errAgentRefuses
+	}
+	return a.Agent.Start(id, deadline)
+}
+
+// agentRefusesRetransmissionScenarios (oracle in Go, no model): the agent refuses the Start of a
+// retransmission.  The transaction is completed once with that error and forgotten; the pooled object it
+// used is then recycled by further transactions, and a late response for the old ID reaches nobody.
+func agentRefusesRetransmissionScenarios(o *out, r *rng, n int) {
+	for i := 0; i < n; i++ {
+		line := fmt.Sprintf("x agent-refuses-retransmission #%d", i)
+		clock := &vclock{now: agentBase}
+		conn := &raceConn{rd: make(chan []byte), closedCh: make(chan struct{}), writes: map[[12]byte]int{},
+			held: make(chan struct{}, 1), release: make(chan struct{}), idle: make(chan struct{}, 1)}
+		coll := &manualCollector{}
+		id0 := 100 + i%50
+		ag := &refusingAgent{Agent: stun.NewAgent(nil), starts: map[[12]byte]int{}, refuse: map[[12]byte]int{clientTID(id0): 2}}
+		fbCalls := 0
+		var mu sync.Mutex
+		c, err := stun.NewClient(conn, stun.WithClock(clock), stun.WithCollector(coll), stun.WithRTO(100), stun.WithAgent(ag),
+			stun.WithHandler(func(stun.Event) { mu.Lock(); fbCalls++; mu.Unlock() }))
+		if err != nil {
+			continue
+		}
+		waitIdleCh := func() {
+			select {
+			case <-conn.idle:
+			case <-time.After(2 * time.Second):
+			}
+		}
+		waitIdleCh()
+		invoked := map[int][]int{}
+		start := func(id int) error {
+			m := &stun.Message{TransactionID: clientTID(id), Raw: stunMsg(r, id, 20)}
+			return c.Start(m, func(e stun.Event) {
+				mu.Lock()
+				invoked[id] = append(invoked[id], agentIDOf(e.TransactionID))
+				mu.Unlock()
+			})
+		}
+		_ = start(id0)
+		now := agentBase.Add(101)
+		clock.set(now)
+		coll.f(now) // retransmission: the agent refuses its Start
+		a, b := 200+i%50, 300+i%50
+		_ = start(a)
+		_ = start(b)
+		conn.rd <- response(r, id0, 0) // late response for the refused transaction
+		waitIdleCh()
+		conn.rd <- response(r, b, 0)
+		waitIdleCh()
+		conn.rd <- response(r, a, 0)
+		waitIdleCh()
+		mu.Lock()
+		ok0 := len(invoked[id0]) == 1
+		okA := len(invoked[a]) == 1 && invoked[a][0] == a
+		okB := len(invoked[b]) == 1 && invoked[b][0] == b
+		fb := fbCalls
+		mu.Unlock()
+		if !ok0 || !okA || !okB || fb != 1 {
+			o.failFor("C12", "event-delivered-to-another-transaction", fmt.Sprintf("%s refused=%v a=%v b=%v fallback=%d", line, invoked[id0], invoked[a], invoked[b], fb))
+			o.failFor("C10", "event-delivered-to-another-transaction", fmt.Sprintf("%s refused=%v a=%v b=%v fallback=%d", line, invoked[id0], invoked[a], invoked[b], fb))
+		}
+		_ = c.Close()
+		o.count("agent-refuses-retransmission")
 	}
 }
